@@ -240,7 +240,8 @@ def expected_profiles(inputs):
     return {k: sorted(v) for k, v in out.items()}
 
 
-BIN_DIRS = ["", "", "deps", "deps/x", "rel_1", ".libs", "skipme"]
+BIN_DIRS = ["", "", "deps", "deps/x", "rel_1", ".libs", "skipme", "server/bin", "client/bin"]
+SHARED_BASES = ["tool", "app", "b0"]        # base names that several directories may use (distinct executables, same file name)
 BIN_KINDS = ["elf", "elf", "elf", "elf_noexec", "script", "text", "empty", "short"]
 
 
@@ -251,7 +252,8 @@ def gen_bins(rng):
     for i in range(n):
         kind = rng.choice(BIN_KINDS)
         d = rng.choice(BIN_DIRS)
-        base = ("b%d" % i) if rng.random() < 0.8 else (".b%d" % i)
+        r = rng.random()
+        base = ("b%d" % i) if r < 0.4 else (rng.choice(SHARED_BASES) if r < 0.85 else (".b%d" % i))
         if rng.random() < 0.1:
             base += ".skip"
         path = os.path.join(d, base)
@@ -316,8 +318,8 @@ def filtered_by_walker(e, bins):
 
 def gen_program(rng):
     """-> {"files": {relpath: text}, "units": [relpath of .c], "runs": [arg...], "pair_line": bool}"""
-    nfun = rng.randrange(2, 7)
-    nmod = rng.randrange(1, 4)
+    nfun = rng.randrange(2, 8)
+    nmod = rng.choice([1, 2, 2, 3, 3, 4, 5])
     use_hdr = rng.random() < 0.75
     pair = rng.random() < 0.3
     subdir_mod = nmod > 1 and rng.random() < 0.3
@@ -375,6 +377,9 @@ def gen_program(rng):
     units = []
     for m, fs in enumerate(mods):
         name = ("sub/m%d.c" % m) if (subdir_mod and m == nmod - 1) else ("m%d.c" % m)
+        if m > 0 and not name.startswith("sub/") and rng.random() < 0.4:
+            # a file name with an extra dot: stats.v2.c -> stats.v2.gcno
+            name = rng.choice(["m%d.v2.c", "unit%d.test.c", "m%d.x.y.c", "a.m%d.c"]) % m
         hdr_ok = use_hdr and not name.startswith("sub/")
         L = ["#include <stdio.h>", "#include <stdlib.h>",
              '#include "%sprotos.h"' % ("../" if name.startswith("sub/") else "")]
